@@ -81,7 +81,7 @@ def gen_group(rng):
 def corrupt(rng, group, target_idx):
     """one corruption of the property's list; returns (label, group', file_level_op or None)"""
     g = copy.deepcopy(group)
-    k = rng.randrange(20)
+    k = rng.randrange(22)
     bi = rng.randrange(0, target_idx + 1)
     b = g[bi]
     files = [e for e in b["entries"] if e["t"] == "file"]
@@ -138,6 +138,10 @@ def corrupt(rng, group, target_idx):
     if k == 12 and target_idx > 0:
         del g[rng.randrange(0, target_idx)]
         return "earlier backup deleted", g, None
+    if k == 20:
+        return "garbage after the manifest's last frame", g, ("append", bi, "metadata.zst")
+    if k == 21:
+        return "garbage after the archive's last frame", g, ("append", bi, "data.tar.zst")
     if k == 13:
         return "data file truncated", g, ("truncate", bi, "data.tar.zst")
     if k == 14:
@@ -282,6 +286,9 @@ def real_restore(case):
             fp = os.path.join(st, GROUP, bname(g[bi]["name"]), fname)
             if op == "delete":
                 os.remove(fp)
+            elif op == "append":
+                with open(fp, "ab") as f:
+                    f.write(b"\x00\x01garbage after the last frame" * 6)
             else:
                 sz = os.path.getsize(fp)
                 with open(fp, "r+b") as f:
